@@ -653,6 +653,8 @@ impl Decryptor {
         let coeff_modulus_size = coeff_modulus.len();
         let coeff_count = parms.poly_modulus_degree();
 
+        #[cfg(feature = "verif")]
+        crate::verif::yield_point("decryptor.sk_array.before_read");
         // Aquire read lock
         let read_lock = self.secret_key_array.read().unwrap();
         assert!(read_lock.len() % (coeff_count * coeff_modulus_size) == 0);
@@ -671,6 +673,8 @@ impl Decryptor {
         secret_key_array[..old_size * poly_size].copy_from_slice(&read_lock[..old_size * poly_size]);
         // Drop lock
         drop(read_lock);
+        #[cfg(feature = "verif")]
+        crate::verif::yield_point("decryptor.sk_array.after_read");
         
         // Since all of the key powers in secret_key_array_ are already NTT transformed, to get the next one we simply
         // need to compute a dyadic product of the last one with the first one [which is equal to NTT(secret_key_)].
@@ -686,6 +690,8 @@ impl Decryptor {
             }
         }
 
+        #[cfg(feature = "verif")]
+        crate::verif::yield_point("decryptor.sk_array.before_write");
         // Aquire write lock
         let mut write_lock = self.secret_key_array.write().unwrap();
 
@@ -718,6 +724,8 @@ impl Decryptor {
 
         // Make sure we have enough secret key powers computed
         self.compute_secret_key_array(encrypted_size - 1);
+        #[cfg(feature = "verif")]
+        crate::verif::yield_point("decryptor.dot_product.before_read");
 
         let secret_key_array_binding = self.secret_key_array.read().unwrap();
         let secret_key_array = secret_key_array_binding.as_ref();
@@ -977,6 +985,21 @@ impl Decryptor {
         destination
     }
 
+}
+
+#[cfg(feature = "verif")]
+impl Decryptor {
+    /// Number of secret key powers currently cached (read under the cache's own lock).
+    pub fn verif_key_powers(&self) -> usize {
+        let key_context_data = self.context.key_context_data().unwrap();
+        let parms = key_context_data.parms();
+        let guard = self.secret_key_array.read().unwrap();
+        guard.len() / (parms.poly_modulus_degree() * parms.coeff_modulus().len())
+    }
+    /// Snapshot of the cached key powers (read under the cache's own lock).
+    pub fn verif_key_array(&self) -> Vec<u64> {
+        self.secret_key_array.read().unwrap().clone()
+    }
 }
 
 fn poly_infty_norm(poly: &[u64], coeff_u64_count: usize, modulus: &[u64], result: &mut[u64]) {
